@@ -201,9 +201,10 @@ class Interp(object):
                     self.raise_(ValueError)
                 return list(c.items)
             if isinstance(c, SeqCell):
-                if not ctx.branch(z3.Length(c.e) == n):
+                from .values import L_len, L_at
+                if not ctx.branch(L_len(c.e) == n):
                     self.raise_(ValueError)
-                return [seq_elem(c, z3.simplify(c.e[i])) for i in range(n)]
+                return [seq_elem(c, L_at(c.e, i)) for i in range(n)]
         raise Unsupported('unpacking %r' % (v,))
 
     def setattr(self, obj, name, v):
